@@ -16,6 +16,9 @@ import LinVerif.Lemmas.C14Delta
 import LinVerif.Lemmas.C14Facts
 import LinVerif.Lemmas.C14Stream
 import LinVerif.Lemmas.C14Pool
+import LinVerif.Lemmas.C14BufAlias
+import LinVerif.Lemmas.C14StreamExt
+import LinVerif.Lemmas.C14SnappyReuse
 
 namespace LinVerif.Props.C14
 open LinVerif LinVerif.Bits LinVerif.Varint
@@ -638,6 +641,37 @@ example : ∃ bytes, tsdEncode 7 [some 5, none, some 6] = some bytes ∧
     (by intro v hv; simp at hv; omega) (by simp) (by decide) (by decide) (by decide)
   exact ⟨bytes, h1, by rw [h2]; decide⟩
 
+/-- **The first real block of an object that was used before it ever held one.** `decoderPool.New` /
+`NewTSDDecoder(≤ 4 bytes)` create a decoder whose buffer, bit reader and XOR decoder are still nil. Any history on
+it — `Next()` moving the slot cursor, `HasValue/Value/GetValue/Seek` answering from nil receivers, short blocks
+rejected by `Reset` (error flag set) — and then the first real `Reset` / `ResetWithTimeRange`: the first-use
+branch of the private `reset` clears cursor and error exactly as the re-arm branch does, so the block is decoded
+as by a fresh decoder. -/
+theorem tsd_first_real_block_after_unarmed_use (history : List DecOp) (data : List Nat) (s e : Nat) (h : 4 < data.length) :
+    (runDec Dec.zero history).reset data = Dec.fresh data ∧
+    ((runDec Dec.zero history).reset data).idx = 0 ∧ ((runDec Dec.zero history).reset data).err = false ∧
+    (runDec Dec.zero history).resetWithTimeRange data s e = Dec.zero.resetWithTimeRange data s e ∧
+    ((runDec Dec.zero history).resetWithTimeRange data s e).idx = 0 ∧
+    ((runDec Dec.zero history).resetWithTimeRange data s e).err = false := by
+  have h1 := tsd_decoder_reset_eq_fresh (runDec Dec.zero history) data h
+  have h2 := tsd_decoder_reset_range_eq_fresh (runDec Dec.zero history) data s e
+  have hn : ¬ data.length ≤ 4 := by omega
+  refine ⟨h1, ?_, ?_, h2, ?_, ?_⟩
+  · rw [h1]; simp [Dec.fresh, h, Dec.reset, hn, Dec.reset']
+  · rw [h1]; simp [Dec.fresh, h, Dec.reset, hn, Dec.reset']
+  · rw [h2]; simp [Dec.resetWithTimeRange, Dec.reset']
+  · rw [h2]; simp [Dec.resetWithTimeRange, Dec.reset']
+
+/-- non-vacuity: such histories do leave the un-armed object with a moved cursor and a pending error -/
+example : let d := runDec Dec.zero [.next, .hasValue, .value, .reset [1, 2]]
+    d.inited = false ∧ d.idx = 1 ∧ d.err = true := by decide
+
+/-- TIE: in the source, `TSDDecoder.reset` clears `idx` and `err` AFTER the if/else, i.e. on the first-use path
+as well as on the re-arm path; no branch returns early -/
+theorem tsd_decoder_private_reset_shape_expected :
+    Generated.C14.tsdDecoderPrivateResetShape = ["if{", "set:buf", "set:reader", "set:values", "}else{",
+      "call:values.Reset", "call:buf.SetBuf", "}", "set:idx", "set:err"] := rfl
+
 /-! ## 7c. malformed input: the error branches of the decoders -/
 
 /-- XOR decoder: once an error is recorded, `Next()` is `false` and nothing moves until `Reset` -/
@@ -800,6 +834,108 @@ theorem tsd_stream_roundtrip (s e : Nat) (fs : List Stream.Field) (pooled : Dec)
   exact tsd_decoder_reset_range_eq_fresh d0 _ s e
 
 end StreamCodec
+
+/-! ## 7g. the rest of pkg/stream (signed fixed-width fields, put sequences, SliceWriter, SeekStart) and the
+exported helpers `DecodeTSDTime`, `ByteSlice2Uint32` -/
+
+section StreamExt
+open LinVerif.Stream
+
+/-- **Any sequence of puts reads back.** Every list of `PutByte/PutBytes/PutUInt16/PutUint32/PutUint64/
+PutInt16/PutInt32/PutInt64/PutUvarint64/PutVarint64` (values representable in the Go types) written by one
+`BufferWriter`, whatever follows in the buffer: the reads of the same shapes return the values in order, without
+error, and leave exactly what followed. -/
+theorem stream_put_sequence_roundtrip (ps : List Put) (rest : List Nat) (hok : ∀ p ∈ ps, p.ok) :
+    (Stream.Reader.fresh ((ps.foldl Stream.Writer.put Stream.Writer.fresh).buf ++ rest)).readAllLike ps
+      = (ps, ⟨(ps.foldl Stream.Writer.put Stream.Writer.fresh).buf ++ rest, rest, .none⟩) := by
+  have hb : (ps.foldl Stream.Writer.put Stream.Writer.fresh).buf = ps.flatMap Put.enc := by
+    rw [puts_buf]; simp [Stream.Writer.fresh]
+  rw [hb]
+  exact readAllLike_puts _ ps rest hok
+
+/-- two's complement fixed-width fields: every `int16`, `int32`, `int64` -/
+theorem stream_signed_fixed_roundtrip (orig rest : List Nat) (a b c : Int)
+    (ha : -(2 ^ 15 : Int) ≤ a ∧ a < 2 ^ 15) (hb : -(2 ^ 31 : Int) ≤ b ∧ b < 2 ^ 31) (hc : -(2 ^ 63 : Int) ≤ c ∧ c < 2 ^ 63) :
+    (⟨orig, (Stream.Writer.fresh.putInt16 a).buf ++ rest, .none⟩ : Stream.Reader).readInt16 = (a, ⟨orig, rest, .none⟩) ∧
+    (⟨orig, (Stream.Writer.fresh.putInt32 b).buf ++ rest, .none⟩ : Stream.Reader).readInt32 = (b, ⟨orig, rest, .none⟩) ∧
+    (⟨orig, (Stream.Writer.fresh.putInt64 c).buf ++ rest, .none⟩ : Stream.Reader).readInt64 = (c, ⟨orig, rest, .none⟩) := by
+  have h1 := readLike_put orig rest (.i16 a) (by simpa [Put.ok] using ha)
+  have h2 := readLike_put orig rest (.i32 b) (by simpa [Put.ok, two31] using hb)
+  have h3 := readLike_put orig rest (.i64 c) (by simpa [Put.ok, two63] using hc)
+  simp only [Stream.Reader.readLike, Put.enc, Prod.mk.injEq, Put.i16.injEq, Put.i32.injEq, Put.i64.injEq] at h1 h2 h3
+  refine ⟨?_, ?_, ?_⟩
+  · exact Prod.ext h1.1 h1.2
+  · exact Prod.ext h2.1 h2.2
+  · exact Prod.ext h3.1 h3.2
+
+/-- **SliceWriter.** After any list of puts: `Bytes()` is everything that was put, `Error()` is non-nil exactly
+when more than `len(buffer)` bytes were put, and as long as it is nil the caller's array holds the puts in
+front of its old tail (same length). -/
+theorem slicewriter_error_iff_overflow (maxLen : Nat) (ps : List Put) (init : List Nat) (hinit : init.length = maxLen) :
+    ((SliceWriter.new maxLen).puts ps).w.buf = ps.flatMap Put.enc ∧
+    (((SliceWriter.new maxLen).puts ps).error = true ↔ (ps.flatMap Put.enc).length > maxLen) ∧
+    (((SliceWriter.new maxLen).puts ps).error = false → ∃ arr, ((SliceWriter.new maxLen).puts ps).backing init = some arr ∧
+      arr.length = maxLen ∧ arr.take (ps.flatMap Put.enc).length = ps.flatMap Put.enc) := by
+  have hb : ((SliceWriter.new maxLen).puts ps).w.buf = ps.flatMap Put.enc := by
+    simp [SliceWriter.puts, SliceWriter.new, puts_buf, Stream.Writer.fresh]
+  have hm : ((SliceWriter.new maxLen).puts ps).maxLen = maxLen := rfl
+  refine ⟨hb, ?_, ?_⟩
+  · simp [SliceWriter.error, hb, hm]
+  · intro he
+    have hle : (ps.flatMap Put.enc).length ≤ maxLen := by
+      simpa [SliceWriter.error, hb, hm] using he
+    refine ⟨ps.flatMap Put.enc ++ init.drop (ps.flatMap Put.enc).length, ?_, ?_, ?_⟩
+    · simp [SliceWriter.backing, he, hb]
+    · simp only [List.length_append, List.length_drop, hinit]; omega
+    · simp
+
+/-- `SeekStart()` from ANY reader state (pending error, exhausted, mid-buffer) is the freshly armed reader -/
+theorem stream_seek_start_eq_fresh (r : Stream.Reader) : r.seekStart = Stream.Reader.fresh r.orig :=
+  seekStart_eq r
+
+/-- `DecodeTSDTime(enc.Bytes())` is the encoder's slot range `[start, start+count-1]` -/
+theorem tsd_decode_time_of_bytes (e : Tsd.Enc) (bs : List Nat) (hs : e.startTime < 65536)
+    (h : e.bytes.1 = some bs) :
+    Tsd.decodeTSDTime bs = some (e.startTime, Tsd.u16 (e.startTime + e.count + 65535)) := by
+  unfold Tsd.Enc.bytes at h
+  simp only at h
+  split at h
+  · cases h
+  · simp only [Option.some.injEq] at h
+    subst h
+    have hlen : ¬ (Tsd.le16 e.startTime ++ Tsd.le16 (Tsd.u16 (e.startTime + e.count + 65535)) ++ e.w.flush.out).length < 4 := by
+      simp [Tsd.le16]
+    rw [Tsd.decodeTSDTime, if_neg hlen, List.append_assoc, Tsd.rd16_le16_0 _ _ hs,
+      Tsd.rd16_le16_2 _ _ _ (by unfold Tsd.u16; omega)]
+
+/-- `DecodeTSDTime` panics on fewer than four bytes (stated guard) -/
+theorem tsd_decode_time_guard (bs : List Nat) (h : bs.length < 4) : Tsd.decodeTSDTime bs = none := by
+  simp [Tsd.decodeTSDTime, h]
+
+/-- `ByteSlice2Uint32` inverts the `width`-byte little-endian cells of the fixed-offset table -/
+theorem byteslice2uint32_roundtrip (w v : Nat) (hw : 1 ≤ w ∧ w ≤ 4) (hv : v < 256 ^ w) :
+    FixedOffset.byteSlice2Uint32 (FixedOffset.leBytes w v) = v :=
+  FixedOffset.byteSlice2Uint32_leBytes w v hw hv
+
+/-- **`FixedOffsetEncoder.Write(writer)` and a failing writer.** The `writer.Write` calls, concatenated, are
+`MarshalBinary()`; against a writer that fails its `k`-th call `Write` reports the error exactly when that call
+is reached, and what the writer took until then is the first `k` chunks (a prefix of the table, never more) —
+no error is swallowed, nothing is written after a failure. -/
+theorem fixedoffset_write_error_paths (e : FixedOffset.Enc) (k : Nat) :
+    e.chunks.flatten = e.marshal ∧
+    ((e.writeTo k).2 = true ↔ k < e.chunks.length) ∧
+    (e.writeTo k).1 = e.chunks.take k ∧
+    (e.chunks.length ≤ k → ((e.writeTo k).1).flatten = e.marshal ∧ (e.writeTo k).2 = false) := by
+  refine ⟨FixedOffset.chunks_flatten e, by simp [FixedOffset.Enc.writeTo], rfl, ?_⟩
+  intro h
+  refine ⟨?_, by simp [FixedOffset.Enc.writeTo]; omega⟩
+  simp only [FixedOffset.Enc.writeTo, List.take_of_length_le h, FixedOffset.chunks_flatten]
+
+example : ((Stream.Reader.fresh ((([Put.i16 (-2), .bytes [7, 8], .sv (-300), .u64 5, .i64 (-1)]).foldl Stream.Writer.put
+    Stream.Writer.fresh).buf)).readAllLike [Put.i16 0, .bytes [0, 0], .sv 0, .u64 0, .i64 0]).1
+    = [Put.i16 (-2), .bytes [7, 8], .sv (-300), .u64 5, .i64 (-1)] := by decide
+
+end StreamExt
 
 /-! ## 7f. aborted use, decode-into-any-target, width of the delta codec, views of internal buffers -/
 
@@ -1103,5 +1239,114 @@ theorem fixedoffset_calls_expected :
     Generated.C14.fixedOffsetEncoderResetFields = ["max", "values[:0]"] ∧
     Generated.C14.fixedOffsetDecoderUnmarshalFields = ["offsetsBlock[:0]", "width", "size", "width", "size",
       "offsetsBlock"] := ⟨rfl, rfl, rfl⟩
+
+/-! ## 10. caller-owned buffers: "the encoded values" are the bytes the slice held when `Write` was called
+
+An encoder that is handed a `[]byte` (snappy chunk writer `Write(row)`, `stream` writer `PutBytes`/`Write`,
+`TSDStreamWriter.WriteField(id, data)`) must have taken its copy when the call returns: callers marshal every row
+into one reused scratch buffer and hand `encoder.Bytes()` views of pooled encoders to `WriteField` before they
+reset the encoder. Model: `Model/BufAlias.lean` (caller memory + what the writer holds); which of the two
+semantics a method has is read off the regenerated sinks of its slice parameter. -/
+
+section SnappyReaderReuse
+open SnappyReuse
+
+/-- **A reused snappy reader decodes every chunk as a new reader would**, after ANY history of `Uncompress`
+calls on any inputs — truncated, corrupt, with trailing garbage, i.e. calls that failed half way and left
+unread input, partial output and a sticky library error behind: the deferred function re-initialises all three
+(read from the source), so nothing of an earlier call reaches the next one. With the library contract
+(`ExternalCodec`) the chunk then decodes to what was written. -/
+theorem snappy_reader_history_irrelevant (lib : Lib) (hist : List (List Nat)) (data : List Nat) :
+    ((SnappyReuse.Reader.run lib {} hist).uncompress lib data).1 = (({} : SnappyReuse.Reader).uncompress lib data).1 ∧
+    SnappyReuse.Reader.run lib {} hist = {} := by
+  have h := run_state lib hist {} rfl
+  rw [h]; exact ⟨rfl, rfl⟩
+
+/-- TIE: the deferred function of `snappyReader.Uncompress` resets the input buffer, the output buffer and the
+library reader -/
+theorem snappy_reader_deferred_expected :
+    Generated.C14.snappyReaderUncompressDeferred = ["compressed.Reset", "decompressed.Reset", "reader.Reset"] := rfl
+
+namespace Neg
+
+/-- without `compressed.Reset` in the deferred function the unread rest of a failed chunk is decoded in front of
+the next chunk: a library that fails on a leading 0xFF and otherwise copies its input returns `[0xFF, 7]`… as an
+error for the good chunk `[7]` after the bad chunk `[0xFF]` -/
+theorem snappy_reader_without_input_reset_is_stale :
+    let lib : Lib := ⟨fun inp => match inp with | 255 :: t => ([], true, 255 :: t) | l => (l, false, [])⟩
+    let calls := ["decompressed.Reset", "reader.Reset"]
+    (((({} : SnappyReuse.Reader).uncompressWith calls lib [255]).2).uncompressWith calls lib [7]).1 = none ∧
+    (({} : SnappyReuse.Reader).uncompressWith calls lib [7]).1 = some [7] := by decide
+
+end Neg
+
+end SnappyReaderReuse
+
+section CallerBuffers
+open BufAlias
+
+/-- **A copying writer is lossless for every caller history**: any interleaving of caller writes into its own
+buffers (`fill`), `Write(buf[:n])` and chunk cuts, any number of chunks through the one writer, any reuse of the
+buffers — every chunk is the concatenation of the rows as they were when `Write` was called. -/
+theorem writer_copy_ignores_later_caller_writes (ops : List Op) (mem : List (Nat × List Nat)) :
+    run .copies { mem := mem } ops = spec mem [] ops :=
+  run_copies_eq_spec ops { mem := mem } (by intro p hp; simp at hp)
+
+/-- the same from any writer state reached by copying writes (open chunk included) -/
+theorem writer_copy_ignores_later_caller_writes_from (ops : List Op) (w : World) (h : AllLit w.staged) :
+    run .copies w ops = spec w.mem w.plain ops := run_copies_eq_spec ops w h
+
+/-- a retaining writer (`EncodeBuffer`) is lossless exactly under the discipline its documentation demands:
+no caller write into a handed-over buffer before the chunk is cut -/
+theorem retaining_writer_needs_caller_discipline (ops : List Op) (mem : List (Nat × List Nat))
+    (h : disciplined [] ops = true) : run .retains { mem := mem } ops = spec mem [] ops :=
+  run_retains_eq_spec_of_disciplined ops { mem := mem } [] (by intro p hp; simp at hp) h
+
+/-- TIE: in the source as it is now, `snappyWriter.Write` hands the row to a copying callee only -/
+theorem snappy_write_does_not_retain : snappyWriteSem = some .copies := by decide
+
+/-- TIE: `stream.writer.PutBytes` / `Write`, `tsdStreamWriter.WriteField` and the INPUT of
+`snappyReader.Uncompress` are copied before the call returns -/
+theorem stream_writers_do_not_retain :
+    streamPutBytesSem = some .copies ∧ streamWriteSem = some .copies ∧ tsdWriteFieldSem = some .copies ∧
+    snappyUncompressInputSem = some .copies := by decide
+
+/-- TIE (documented exception): `FixedOffsetEncoder.FromValues` BORROWS the caller's slice (`e.values = values`)
+until `MarshalBinary`/`Write`; `Add` copies values. The round-trip theorems about `FromValues` therefore speak
+about the slice content at `MarshalBinary` time; the harness never touches the slice in between. -/
+theorem fixedoffset_from_values_borrows : fixedOffsetFromValuesSem = some .retains := by decide
+
+/-- **Snappy chunks under caller-buffer reuse**: with the semantics the source has now and the library contract
+(`ExternalCodec`), for every caller history every chunk decodes to the rows as written. -/
+theorem snappy_chunks_lossless_under_buffer_reuse (c : ExternalCodec (List Nat)) (sem : Sem)
+    (hs : snappyWriteSem = some sem) (ops : List Op) (mem : List (Nat × List Nat)) (chunks : List (List Nat))
+    (h : run sem { mem := mem } ops = some chunks) :
+    spec mem [] ops = some chunks ∧ ∀ p ∈ chunks, c.decode (c.encode p) = some p := by
+  have : sem = .copies := by
+    have := snappy_write_does_not_retain; rw [hs] at this; exact Option.some.inj this
+  subst this
+  rw [writer_copy_ignores_later_caller_writes] at h
+  exact ⟨h, fun p _ => c.roundtrip p⟩
+
+/-- non-vacuity: one scratch buffer reused for three rows of two chunks, poisoned after every `Write` -/
+example : run .copies {} [.fill 0 [1, 2, 3], .write 0 3, .fill 0 [9, 9, 9], .fill 0 [4, 5], .write 0 2, .fill 0 [9, 9],
+      .cut, .fill 0 [7], .write 0 3, .cut] = some [[1, 2, 3, 4, 5], [7, 9, 9]] := by decide
+
+/-- an unknown callee has no semantics: the ties above fail by name instead of defaulting -/
+example : sinksSem ["writer.SomethingNew"] = none ∧ sinksSem [] = none ∧
+    sinksSem ["writer.EncodeBuffer"] = some .retains := by decide
+
+namespace Neg
+
+/-- a writer that keeps the caller's slice loses rows as soon as the caller reuses its scratch buffer:
+rows `[1]`, `[2]` written from one buffer come back as `[2, 2]` -/
+theorem retaining_writer_loses_rows :
+    run .retains {} [.fill 0 [1], .write 0 1, .fill 0 [2], .write 0 1, .cut] = some [[2, 2]] ∧
+    spec [] [] [.fill 0 [1], .write 0 1, .fill 0 [2], .write 0 1, .cut] = some [[1, 2]] ∧
+    disciplined [] [.fill 0 [1], .write 0 1, .fill 0 [2], .write 0 1, .cut] = false := by decide
+
+end Neg
+
+end CallerBuffers
 
 end LinVerif.Props.C14
